@@ -338,6 +338,6 @@ CLAIM = {
             "warm-up window the single value on a longer input depends only on the trailing window (slice_candles applied). "
             "Structurally different single-value computations on the same inputs are refuted by witness evaluation or reported as undecided. "
             "Default parameters, shifted and smallest periods, a recursive matype, and a short input (10 candles: one entry per candle, a "
-            "series, and sequential must not be the only call that raises).",
+            "series, and sequential must not be the only call that raises). Effect analysis of the indicator call graph (R3); a witness valuation with a quiet tail (flat candles, no trades).",
     "note": "Trusted: numpy model; structural equality as a sufficient condition for value equality; source types other than the default are not varied.",
 }
